@@ -407,3 +407,57 @@ func limitQueries() []*Query {
 	add(all, jsonAtoms()[0], dropAtoms()[4], Stage{Kind: "line", Op: "|=", Val: "k"})
 	return out
 }
+
+// chainQueries: unparenthesised and/or chains of 3 (thorough: also 4) comparisons, every operator combination, on
+// the stored-label path (filter before any parser: SimpleLabelFilterPlanner), on the path after a parser
+// (LabelFilterPlanner over the labels map) and after a drop; string and numeric leaves; every order of the leaves.
+func chainQueries(cfg genConfig) []*Query {
+	var out []*Query
+	all := []Matcher{{"a", "=~", ".+"}}
+	pre := []*Tree{leafS("a", "=", "x"), leafS("b", "!=", "y"), leafN("c", "==", "1")}
+	post := []*Tree{leafS("p", "=", "x"), leafN("q", "==", "5"), leafS("a", "=", "x")}
+	jsonPQ := Stage{Kind: "json", JSON: []JSONParam{{"p", "k"}, {"q", "i"}}}
+	opsets := func(n int) [][]string {
+		res := [][]string{{}}
+		for i := 0; i < n; i++ {
+			var nx [][]string
+			for _, r := range res {
+				nx = append(nx, append(append([]string{}, r...), "and"), append(append([]string{}, r...), "or"))
+			}
+			res = nx
+		}
+		return res
+	}
+	var perms func(pool []*Tree, k int) [][]*Tree
+	perms = func(pool []*Tree, k int) [][]*Tree {
+		if k == 0 {
+			return [][]*Tree{{}}
+		}
+		var res [][]*Tree
+		for i := range pool {
+			rest := append(append([]*Tree{}, pool[:i]...), pool[i+1:]...)
+			for _, p := range perms(rest, k-1) {
+				res = append(res, append([]*Tree{pool[i]}, p...))
+			}
+		}
+		return res
+	}
+	emit := func(pool []*Tree, k int, wrap func(Stage) []Stage) {
+		for _, leaves := range perms(pool, k) {
+			for _, ops := range opsets(k - 1) {
+				out = append(out, &Query{Matchers: all, Stages: wrap(chainStage(leaves, ops...))})
+			}
+		}
+	}
+	emit(pre, 3, func(c Stage) []Stage { return []Stage{c} })
+	emit(post, 3, func(c Stage) []Stage { return []Stage{jsonPQ, c} })
+	emit(pre, 3, func(c Stage) []Stage { return []Stage{{Kind: "drop", Drops: []DropParam{{Label: "zz"}}}, c} })
+	if cfg.thorough {
+		pre4 := append(append([]*Tree{}, pre...), leafS("b", "=~", "x"))
+		post4 := append(append([]*Tree{}, post...), leafN("c", ">", "1"))
+		emit(pre4, 4, func(c Stage) []Stage { return []Stage{c} })
+		emit(post4, 4, func(c Stage) []Stage { return []Stage{jsonPQ, c} })
+		emit(post, 3, func(c Stage) []Stage { return []Stage{regexpAtoms()[0], c} })
+	}
+	return out
+}
